@@ -48,8 +48,8 @@ func TestC01_ExactlyOnce(t *testing.T) {
 			}
 		}
 		rt.Repeat(map[string]func(*rapid.T){
-			"start":  func(rt *rapid.T) { start(rt, false) },
-			"start2": func(rt *rapid.T) { start(rt, false) },
+			"start":     func(rt *rapid.T) { start(rt, false) },
+			"start2":    func(rt *rapid.T) { start(rt, false) },
 			"startDeep": func(rt *rapid.T) { start(rt, true) },
 			"fillSend": func(rt *rapid.T) {
 				o := pickObj("o")
@@ -121,7 +121,7 @@ func TestC01_ExactlyOnce(t *testing.T) {
 				}
 				w.pollOnce()
 			},
-			"":     func(rt *rapid.T) { w.checkNow() },
+			"": func(rt *rapid.T) { w.checkNow() },
 		})
 		w.checkNow()
 		w.drain()
